@@ -128,7 +128,7 @@ def regex_match(I, pattern: re.Pattern, args, kw, mode="match"):
             k = kind.t == str_const(a["name"])
             ex.assume(z3.Implies(k, end.t >= pt + a["min"]))
             if a["literal"] is not None:
-                ex.assume(z3.Implies(k, end.t == pt + len(a["literal"])))
+                ex.assume(z3.Implies(k, z3.And(end.t == pt + len(a["literal"]), z3.SubSeq(st, pt, len(a["literal"])) == str_const(a["literal"]))))
         m.fields["_kind"] = kind
     return m
 
